@@ -60,6 +60,26 @@ func TestVerifReplay(t *testing.T) {
 	for r, v := range cfg.Replay.Overlay {
 		repl[filepath.Join(*repoDir, r)] = filepath.Join(*verifDir, v)
 	}
+	icpt := map[string]string{}
+	for k, v := range cfg.Intercept {
+		icpt[k] = v
+	}
+	for _, e := range cfg.Entries {
+		if e.Name == entry {
+			for k, v := range e.Intercept {
+				icpt[k] = v
+			}
+		}
+	}
+	if len(icpt) > 0 {
+		extra, err := nativeInterceptOverlay(icpt, repl, tmp)
+		if err != nil {
+			return false, "", err
+		}
+		for k, v := range extra {
+			repl[k] = v
+		}
+	}
 	ob, _ := json.Marshal(map[string]any{"Replace": repl})
 	ofile := filepath.Join(tmp, "overlay.json")
 	os.WriteFile(ofile, ob, 0o644)
